@@ -60,6 +60,11 @@ fn normalise_message(m: &str) -> String {
         }
     }
     let out = out.replace('\n', " ");
+    // anything after the first back-quoted excerpt is input text
+    let out = match out.find('`') {
+        Some(i) => out[..i].to_string(),
+        None => out,
+    };
     out.chars().take(160).collect()
 }
 
@@ -176,6 +181,30 @@ pub fn install() {
         }
         if !outer_entry.is_empty() && outer_entry != entry {
             entry = format!("{entry}<{outer_entry}");
+        }
+        // runtime functions that hold a container borrow while calling back into the VM
+        const MARKERS: &[&str] = &[
+            "display",
+            "compare_value_ranges",
+            "compare_value_maps",
+            "compare_values",
+            "sort_values",
+            "sort_by_key",
+        ];
+        let mut markers: Vec<&str> = Vec::new();
+        for (f, at) in &frames {
+            if at.contains("/repo/") {
+                let name = f.rsplit("::").next().unwrap_or(f);
+                let name = name.split('<').next().unwrap_or(name);
+                for m in MARKERS {
+                    if name == *m && !markers.contains(m) {
+                        markers.push(m);
+                    }
+                }
+            }
+        }
+        if !markers.is_empty() {
+            entry = format!("{entry}~{}", markers.join("+"));
         }
         let signature = format!(
             "{}|{}|{}|{}",
